@@ -13,7 +13,7 @@ import (
 
 func init() {
 	sim.Register(&sim.Prop{
-		ID: "C12", Run: runC12, QuickRuns: 200000, ThoroughRuns: 5000000,
+		ID: "C12", Run: runC12, QuickRuns: 200000, ThoroughRuns: 12000000,
 		Rule:       "Each run: 1..6 exchanges between a writer peer (tape-chosen among the in-place, append and stream message-begin writers; method names empty..long with arbitrary bytes, any type 0..65535, any seq id) and a reader peer (buffer reader and stream reader) joined by the fault transport: per-exchange fragmentation, truncation at any cut point, corruption of the first word (version marker). Oracle: reference envelope codec on the delivered bytes; by-product: MarshalFastMsg/UnmarshalFastMsg round trip incl. the EXCEPTION branch.",
 		Components: realComponents,
 		Probes:     []string{"env.ok", "env.truncated", "env.bad_version", "exception_branch", "name_longer_than_buffer", "retry_after_failed_write", "name_of_a_megabyte"},
